@@ -60,6 +60,18 @@ Expand(e) ==
     [] e.k = "map"   -> [e EXCEPT !.e = [i \in 1..Len(e.e) |-> << Expand(e.e[i][1]), Expand(e.e[i][2]) >>]]
     [] OTHER -> e
 
+\* names occurring in a surface tree: identifiers (variables) and called function names
+RECURSIVE Names(_)
+Names(e) ==
+  LET U(es) == UNION { Names(es[i]) : i \in 1..Len(es) } IN
+  CASE e.k = "id"    -> { << "var", e.name >> }
+    [] e.k = "call"  -> { << "fn", e.fn >> } \cup U(e.args) \cup (IF e.tgt.k = "none" THEN {} ELSE Names(e.tgt))
+    [] e.k = "sel"   -> Names(e.e)
+    [] e.k = "list"  -> U(e.e)
+    [] e.k = "map"   -> UNION { Names(e.e[i][1]) \cup Names(e.e[i][2]) : i \in 1..Len(e.e) }
+    [] e.k = "macro" -> Names(e.range) \cup U(e.args)
+    [] OTHER -> {}
+
 -----------------------------------------------------------------------------
 (* Prefix notation.  A symbol is a string; Arity gives its number of operands;
    Build(sym, pos, kids) the tree; Src(sym, pos, kidsrc) its source text.  pos (the position of
